@@ -74,6 +74,50 @@ func ruleArgCheck(c *Ctx, rule string, aligners []string) {
 				}
 				return true
 			})
+			// a check may have been moved into a helper of the package that is called before any table is
+			// indexed and whose error the aligner returns at once: la, let, err := a.flatMatrix(alpha.Len())
+			viaHelper := func(errName string, needLenArg bool) token.Pos {
+				for i, st := range fd.Body.List {
+					as, ok := st.(*ast.AssignStmt)
+					if !ok || as.Pos() > boundary || len(as.Rhs) != 1 || i+1 >= len(fd.Body.List) {
+						continue
+					}
+					call, ok := unparen(as.Rhs[0]).(*ast.CallExpr)
+					if !ok {
+						continue
+					}
+					h := helperDecl(p, call)
+					if h == nil {
+						continue
+					}
+					pos, found := returnsErr(p, h.Body, errName)
+					if !found {
+						continue
+					}
+					if needLenArg {
+						has := false
+						for _, a := range call.Args {
+							has = has || mentionsCall(p, a, "Len")
+						}
+						if !has {
+							continue
+						}
+					}
+					// the very next statement hands the error back
+					if ifs, ok := fd.Body.List[i+1].(*ast.IfStmt); ok {
+						returns := false
+						for _, bs := range ifs.Body.List {
+							if _, isRet := bs.(*ast.ReturnStmt); isRet {
+								returns = true
+							}
+						}
+						if returns {
+							return pos
+						}
+					}
+				}
+				return token.NoPos
+			}
 			// (i) size check
 			sizePos := token.NoPos
 			for _, st := range fd.Body.List {
@@ -89,6 +133,8 @@ func ruleArgCheck(c *Ctx, rule string, aligners []string) {
 			}
 			if sizePos.IsValid() {
 				c.ok(rule, fn+"/matrix-size", sizePos, "returns ErrMatrixWrongSize under a comparison with alpha.Len() before any table is indexed")
+			} else if pos := viaHelper("ErrMatrixWrongSize", true); pos.IsValid() {
+				c.ok(rule, fn+"/matrix-size", pos, "a helper given alpha.Len() returns ErrMatrixWrongSize and the aligner hands that error back before any table is indexed")
 			} else {
 				// accepted alternative: the entry point checks before calling
 				entry, _ := c.decl("align", a+".Align")
@@ -111,6 +157,8 @@ func ruleArgCheck(c *Ctx, rule string, aligners []string) {
 			}
 			if sqPos.IsValid() {
 				c.ok(rule, fn+"/matrix-square", sqPos, "returns ErrMatrixNotSquare inside the row loop")
+			} else if pos := viaHelper("ErrMatrixNotSquare", false); pos.IsValid() {
+				c.ok(rule, fn+"/matrix-square", pos, "the helper that flattens the matrix returns ErrMatrixNotSquare and the aligner hands that error back")
 			} else {
 				c.bad(rule, fn+"/matrix-square", fd.Pos(), "never returns ErrMatrixNotSquare while flattening the matrix: a ragged matrix is indexed with the wrong stride or panics")
 			}
